@@ -312,7 +312,7 @@ func TestVerifC02Validate(t *testing.T) {
 		for _, a := range applied {
 			vf.Class("mutation=" + a)
 		}
-		vf.Class("wrap=" + wrap, fmt.Sprintf("mutations=%d", len(applied)))
+		vf.Class("wrap="+wrap, fmt.Sprintf("mutations=%d", len(applied)))
 		for _, r := range reasons {
 			vf.Class("invalid:" + r)
 			if flowless {
